@@ -96,7 +96,7 @@ Value& OpSUBExpression::value(Context& ctx) const
       {
         if (a2.isNull() || a1.isNull())
           return LVAL2(Value(Value::type_integer), a1, a2);
-        Value val(Integer(*a1.integer() - *a2.integer()));
+        Value val(Value::wrapSub(*a1.integer(), *a2.integer()));
         return LVAL2(val, a1, a2);
       }
       case Type::IMAGINARY:
